@@ -138,10 +138,13 @@ CLAIMED = {
     "C12": dict(
         text="PARTIAL. Kernel-checked theorems cover the observers' decision logic in the model: parsing is total, parsed names are "
              "1..63-byte labels within 255 bytes, and the fallible text conversions return Ok or Err - Err exactly on invalid UTF-8. "
-             "The lossy rendering of Display/Debug is not modelled, so the 'never panics' claim for formatting rests on the OBSERVE "
-             "slice: every public observer applied under catch_unwind to every part of parser-accepted packets built around invalid "
-             "UTF-8, NUL, dots, backslashes, empty and maximal strings.",
-        technique="Coq proof of the conversion decision logic (thin) + implementation run of all observers under catch_unwind with model-predicted error counts",
+             "Display of labels, character-strings and names is modelled (String::from_utf8_lossy's maximal-subpart replacement) and "
+             "proved, for every byte string, to yield well-formed UTF-8, to leave well-formed text unchanged and to be at most three "
+             "times as long; the SHOW slice compares it with what Display writes. The derived Debug output is not modelled, so the "
+             "'never panics' claim for Debug / clone / hash / eq rests on the OBSERVE slice: every public observer applied under "
+             "catch_unwind to every part of parser-accepted packets built around invalid UTF-8, NUL, dots, backslashes, empty and "
+             "maximal strings.",
+        technique="Coq proof of the lossy renderer and of the conversion decision logic + model/implementation correspondence on Display output + implementation run of all observers under catch_unwind with model-predicted error counts",
         ref="DESIGN.md section 6, C12"),
     "C14": dict(
         text="PARTIAL. Kernel-checked theorems over the loop bodies of the responder, the discovery listener and the one-shot "
